@@ -5,6 +5,7 @@
 package main
 
 import (
+	"sort"
 	"strconv"
 	"strings"
 	"time"
@@ -31,6 +32,9 @@ type tcase struct {
 	conns []conn
 	pts   map[string][]point // by measurement key
 	order []string           // measurement keys in recording order
+	// probes sent / lost per measurement key (RecordSent / RecordLost, as the overlay transport does): a key can
+	// have probes and no round-trip sample at all (every probe lost) or only stale samples
+	probes map[string][2]int
 }
 
 func run(r *hlib.Run, tc tcase) {
@@ -50,6 +54,14 @@ func run(r *hlib.Run, tc tcase) {
 	for _, k := range tc.order {
 		for _, p := range tc.pts[k] {
 			ins.VerifC50RecordAged(k, p.val, time.Duration(p.ageMs)*time.Millisecond)
+		}
+	}
+	for k, sl := range tc.probes {
+		for j := 0; j < sl[0]; j++ {
+			ins.RecordSent(k)
+		}
+		for j := 0; j < sl[1]; j++ {
+			ins.RecordLost(k)
 		}
 	}
 	var rec srtt.Recorder
@@ -86,12 +98,21 @@ func run(r *hlib.Run, tc tcase) {
 		if s := ins.Snapshot(k, 10*time.Second); s != nil {
 			avg = strconv.FormatInt(int64(s.Average), 10)
 		}
-		tab = append(tab, k+"|"+a+"|"+avg)
+		sl := tc.probes[k]
+		tab = append(tab, k+"|"+a+"|"+avg+"|"+strconv.Itoa(sl[0])+";"+strconv.Itoa(sl[1]))
 	}
 	for _, n := range nodes {
 		addKey(srtt.MakeMeasurementKey(n))
 	}
 	for _, k := range tc.order {
+		addKey(k)
+	}
+	var pk []string
+	for k := range tc.probes {
+		pk = append(pk, k)
+	}
+	sort.Strings(pk)
+	for _, k := range pk {
 		addKey(k)
 	}
 	rhs := "panic"
@@ -115,14 +136,14 @@ func run(r *hlib.Run, tc tcase) {
 
 func main() {
 	r := hlib.Start()
-	r.Rule = "one case = connection map (0..6 nodes, random keys and insertion order, addresses possibly shared, unknown flag) + measurement table (per key: no points / only stale points 12..60 s / fresh points 0..8 s / mixed; values from a small set so that equal averages are frequent) + recorder on/off; non-trivial = at least 2 nodes (distinct case text)"
+	r.Rule = "one case = connection map (0..6 nodes, random keys and insertion order, addresses possibly shared, unknown flag) + measurement table (per key: no points / only stale points 12..60 s / fresh points 0..8 s / mixed; values from a small set so that equal averages are frequent; per key 0..5 probes recorded as sent and some as lost, independent of the samples, so keys with probes but no (recent) sample occur) + recorder on/off; non-trivial = at least 2 nodes (distinct case text)"
 	rng := hlib.NewRng(r.Seed)
 	if r.Replay != "" {
 		for _, t := range r.ReplayLines() {
 			if t[0] != "conn" || len(t) < 4 {
 				continue
 			}
-			tc := tcase{rec: t[1] == "1", pts: map[string][]point{}}
+			tc := tcase{rec: t[1] == "1", pts: map[string][]point{}, probes: map[string][2]int{}}
 			if t[2] != "-" {
 				for _, e := range strings.Split(t[2], ",") {
 					f := strings.Split(e, "|")
@@ -133,6 +154,14 @@ func main() {
 				for _, e := range strings.Split(t[3], ",") {
 					f := strings.Split(e, "|")
 					tc.order = append(tc.order, f[0])
+					if len(f) > 3 {
+						sl := strings.Split(f[3], ";")
+						a, _ := strconv.Atoi(sl[0])
+						b, _ := strconv.Atoi(sl[1])
+						if a+b > 0 {
+							tc.probes[f[0]] = [2]int{a, b}
+						}
+					}
 					if f[1] == "_" {
 						continue
 					}
@@ -155,7 +184,7 @@ func main() {
 		n = 400000
 	}
 	for i := 0; i < n; i++ {
-		tc := tcase{rec: !rng.Chance(12), pts: map[string][]point{}}
+		tc := tcase{rec: !rng.Chance(12), pts: map[string][]point{}, probes: map[string][2]int{}}
 		nn := rng.Intn(7)
 		usedKey := map[string]bool{}
 		for j := 0; j < nn; j++ {
@@ -175,6 +204,11 @@ func main() {
 			k := srtt.MakeMeasurementKey(n)
 			if _, ok := tc.pts[k]; ok {
 				continue
+			}
+			if _, ok := tc.probes[k]; !ok && rng.Chance(60) {
+				sent := 1 + rng.Intn(5)
+				tc.probes[k] = [2]int{sent, rng.Intn(sent + 1)}
+				r.Count("key:probed")
 			}
 			var ps []point
 			switch rng.Intn(6) {
